@@ -17,7 +17,9 @@ COMMON_TRUSTED = [
 CRYPTO_TRUSTED = [
     "[patch.crates-io] hmac 0.13 -> deterministic keyed fold with the same digest::Mac/KeyInit traits: real HMAC is assumed to be a deterministic function of (key, data); unforgeability is assumed, never proved",
     "[patch.crates-io] aes-gcm 0.10 -> toy AEAD with the same aead traits: determinism and 'every input byte matters' only; cryptographic strength assumed",
-    "literal SrtpContext built by the harness with zero-filled AES key schedules (profiles that read them are excluded)",
+    "[patch.crates-io] aes 0.9 + ctr 0.10 -> toy XOR keystream keyed by (key, all 16 IV bytes, position): determinism only; AES strength assumed",
+    "literal SrtpContext built by the harness (its constructor SrtpContext::new has its own obligation: Ok => well_formed)",
+    "stub: std::time::Instant::now -> fixed instant (clock_gettime is a foreign function)",
 ]
 
 
@@ -63,6 +65,28 @@ PROPS["C04"] = {
         K("profile parameter table", "c04_profile_table", "quick", "proof",
           ["SrtpProfile::tag_len", "SrtpProfile::salt_len", "SrtpProfile::key_len", "SrtpProfile::auth_key_len"],
           "tag/salt/key/auth-key lengths per profile equal RFC 3711 8.2 / RFC 7714 14.2"),
+        K("cipher_rtcp IV == RFC 3711 4.1.1 (SRTCP index)", "c04_cipher_rtcp_iv_spec", "quick", "proof", ["SrtpContext::cipher_rtcp"],
+          "the IV handed to the cipher == (k_s*2^16) xor (SSRC*2^64) xor (index*2^16) for every salt, ssrc, index; first 8 bytes untouched (ctr_from_key replaced by a recording stub)"),
+        K("protect layout AES_CM_128_HMAC_SHA1_80 (4 B payload, 2 B padding)", "c04_protect_layout_sha80_p4_pad2", "quick", "bounded",
+          ["SrtpContext::protect", "SrtpContext::protected_rtp_len", "SrtpContext::build_iv", "SrtpContext::estimate_roc", "SrtpContext::update", "RtpHeader::write_to"],
+          "output == header image || keystream(IV per RFC 3711 4.1.1) xor (payload||padding) || MAC(header||body||ROC)[..10]; length == protected_rtp_len; P bit; state advanced per post_update",
+          bound="12-byte header (all fields symbolic), 4 payload bytes, padding 2; fixed keys; hmac/aes/ctr substitutes", timeout=900),
+        K("protect layout SHA1_32 (empty payload)", "c04_protect_layout_sha32_p0", "thorough", "bounded", ["SrtpContext::protect"],
+          "same, 4-byte tag, empty body skips the cipher", bound="12-byte header, empty payload", timeout=900),
+        K("protect layout NULL cipher (4 B payload)", "c04_protect_layout_null_p4", "thorough", "bounded", ["SrtpContext::protect"],
+          "same, body in clear", bound="12-byte header, 4 payload bytes", timeout=900),
+        K("protect∘unprotect round trip AES_CM_128_HMAC_SHA1_80 (2 B payload, 2 B padding)", "c04_roundtrip_sha80_p2_pad2", "quick", "bounded",
+          ["SrtpContext::protect", "SrtpContext::unprotect", "SrtpContext::estimate_roc", "SrtpContext::update", "SrtpContext::build_iv", "constant_time_eq"],
+          "unprotect(protect(p)) == p (header fields, payload, padding) for every header/payload and every shared (roc,last_seq) state; both contexts end in the same index state",
+          bound="12-byte header, 2 payload bytes, padding 2; fixed keys; SrtpPacket re-wrapped literally (SrtpPacket::parse skipped)", timeout=1200),
+        K("protect∘unprotect round trip NULL cipher (2 B payload)", "c04_roundtrip_null_p2", "thorough", "bounded",
+          ["SrtpContext::protect", "SrtpContext::unprotect"], "same", bound="12-byte header, 2 payload bytes", timeout=1200),
+        K("protect_rtcp∘unprotect_rtcp AES_CM (12 B)", "c04_rtcp_roundtrip_sha80_12", "quick", "bounded",
+          ["SrtpContext::protect_rtcp", "SrtpContext::unprotect_rtcp", "SrtpContext::cipher_rtcp", "SrtpContext::auth_tag_rtcp_into"],
+          "identity; first 8 bytes in clear; E bit set; index appended big-endian before the tag and incremented per packet",
+          bound="12-byte RTCP packet, symbolic content and index", timeout=900),
+        K("protect_rtcp∘unprotect_rtcp NULL (12 B)", "c04_rtcp_roundtrip_null_12", "thorough", "bounded",
+          ["SrtpContext::protect_rtcp", "SrtpContext::unprotect_rtcp"], "same", bound="12-byte RTCP packet", timeout=900),
         K("canary: estimate_roc always returns roc", "canary_estimate_roc_always_roc", "quick", "canary", ["SrtpContext::estimate_roc"],
           "false claim, must FAIL", expect="fail"),
     ],
@@ -81,6 +105,14 @@ PROPS["C05"] = {
     "explanation": "context-level contracts: Err => receiver crypto state (rollover counter, last sequence, SRTCP index) unchanged; Ok => the stripped tag equals the MAC recomputed by the harness over EVERY preceding byte (and the ROC for RTP); short inputs rejected. Packet shapes are bounded and reported as bounded stand-ins; only constant_time_eq is unbounded over its reachable domain.",
     "trusted_base": CRYPTO_TRUSTED + ["SrtpPacket built literally by the harness (SrtpPacket::parse does not execute in CBMC, DESIGN 2.5)"],
     "kani": [
+        K("SrtpContext::new => well_formed (SHA1_80)", "c05_new_well_formed_sha80", "quick", "proof", ["SrtpContext::new", "SrtpContext::derive_keys", "SrtpContext::kdf"],
+          "for every master key/salt and ssrc: Ok(c) with both HMAC prototypes present (authentication can never be skipped), fresh index state, key/salt/auth lengths per profile"),
+        K("SrtpContext::new => well_formed (GCM)", "c05_new_well_formed_gcm", "quick", "proof", ["SrtpContext::new", "SrtpContext::derive_keys"],
+          "both AEAD ciphers present, 12-byte salts"),
+        K("SrtpContext::new => well_formed (SHA1_32)", "c05_new_well_formed_sha32", "thorough", "proof", ["SrtpContext::new"], "same"),
+        K("SrtpContext::new => well_formed (NULL)", "c05_new_well_formed_null", "thorough", "proof", ["SrtpContext::new"], "same"),
+        K("SrtpContext::new rejects short keying", "c05_new_rejects_short_keying", "quick", "bounded", ["SrtpContext::new"],
+          "master key < 16 or salt < salt_len => Err, no panic", bound="lengths 15/14, 16/13, 16/11"),
         K("constant_time_eq == slice equality", "c05_constant_time_eq_spec", "quick", "proof", ["constant_time_eq"],
           "constant_time_eq(a,b) == (a==b) for every pair of slices of length <= 20 (= SHA1_LEN, every reachable size)"),
         K("unprotect_rtcp HMAC-80: frame + tag over all bytes (22 B, fixed key)", "c05_unprotect_rtcp_hmac80_22_fixedkey", "quick", "bounded",
